@@ -65,3 +65,15 @@ Definition chk_load (c : lcase) : bool :=
   | Err, Err => true
   | _, _ => false
   end.
+
+(* ------------------------------------------------------------------ the pole-snap witness (Properties/C13.v, clause 2)
+   geographic CRS, degrees, no PROJ call on that path: grid extent (-20, 79.99995, 20, 99.99995), shape (20, 40),
+   once as centre + radius + shape, once as extent + shape *)
+Definition snap_crs_args : args (T:=float) :=
+  @mk_args float None None None (Some (20, 40)%float) None (Some ((0, 0x1.67fff2e48e8a7p+6)%float, None)) None
+           (Some ((20, 10)%float, None)) None.
+Definition snap_es_args : args (T:=float) :=
+  @mk_args float None None (Some ((-20, 0x1.3ffff2e48e8a7p+6, 20, 0x1.8ffff2e48e8a7p+6)%float, None)) (Some (20, 40)%float)
+           None None None None None.
+Definition run_geo (a : args (T:=float)) : outcome float :=
+  create_area_def F64 (fun _ => None) (fun _ => None) (fun _ => 1%float) true Cdeg a.
